@@ -111,8 +111,15 @@ def run_case(rng, idx, tier):
             viol.append({"key": {"test": name, "kind": "not-a-bool"}, "err": None, "msg": "%s returned %r" % (name, r)})
             continue
         if bool(r) != expected:
+            extra = {}
+            if name == "libccd" and expected:
+                from .. import monitors
+                sine, trip = monitors.libccd_first_edge(*pairs.build_pair(sA, sB))
+                # mechanism of K22: the origin lies (numerically) on the first simplex edge, or the next search
+                # direction, a product of three lengths, falls below the absolute threshold EPSILON
+                extra = {"origin_on_first_edge": bool(sine < 1e-3 or trip < 1e-13)}
             viol.append({"key": {"test": name, "kind": "missed-overlap" if expected else "reported-gap-as-collision",
-                                 "pair": "%s|%s" % (O.base_kind(sA), O.base_kind(sB)), "cls": cls.split("+")[0]},
+                                 "pair": "%s|%s" % (O.base_kind(sA), O.base_kind(sB)), "cls": cls.split("+")[0], **extra},
                          "err": float(margin),
                          "msg": "%s(%s,%s) [%s] answered %s; truth %s with margin %.3g*L" % (
                              name, names[0], names[1], cls, bool(r), expected, margin)})
